@@ -156,6 +156,17 @@ class Check(PropertyCheck):
             fig = plotter(d.schedule)
             bars, _, _, lim2 = read_chart(fig.axes[0])
             plt.close(fig)
+            # a requested limit stays the limit whatever is drawn afterwards: the current-time marker beyond it, a shaded span the
+            # caller adds to the returned axes
+            fig = plotter(d.schedule, makespan=final_mk + 3, current_time=final_mk + 9)
+            ax3 = fig.axes[0]
+            _, _, _, lim3 = read_chart(ax3)
+            ax3.axvspan(0, final_mk + 20, alpha=0.1)
+            _, _, _, lim4 = read_chart(ax3)
+            plt.close(fig)
+        for what3, lim in (("with the current-time marker beyond the requested limit", lim3), ("after the caller shaded a span on the axes", lim4)):
+            if int(lim[1] + 0.5) != final_mk + 3 or abs(lim[0]) > 1e-9:
+                res.append(("xlim", f"a chart drawn with the requested limit {final_mk + 3} {what3}: time axis is {lim[0]:g}..{lim[1]:g}"))
         want = sorted(f"{1 + 10 * so.machine_id}:{so.start_time}:{so.end_time - so.start_time}:{so.job_id}"
                       for ms in d.schedule.schedule for so in ms)
         if int(lim1[1] + 0.5) != final_mk + 3:
